@@ -301,6 +301,145 @@ func c08Conditional(cfg runCfg, res *Result, srv *Server, round int) error {
 	return nil
 }
 
+
+// snapshot consistency: writers replace ALL parts of a value by one fresh tag in a single command
+// (MSET of four keys, HSET of eight fields), or add / remove a fixed group of members or elements in a
+// single command; every state reachable by such commands is uniform (all parts carry the same tag; the
+// group is present completely or not at all), so every reply of a multi-part reader must be uniform. A
+// reader that looks at the value outside the writer's lock section sees a half-applied command.
+func c08Snapshot(cfg runCfg, res *Result, srv *Server, round int) error {
+	const nW, nR = 3, 5
+	conns := make([]*Conn, nW+nR+1)
+	var err error
+	for i := range conns {
+		if conns[i], err = dial(srv.Port); err != nil {
+			return err
+		}
+		defer conns[i].Close()
+	}
+	conns[nW+nR].Do(3*time.Second, bs("FLUSHALL")...)
+	var stop int32
+	var mu sync.Mutex
+	why := ""
+	total := 0
+	fail := func(s string) {
+		mu.Lock()
+		if why == "" {
+			why = s
+		}
+		mu.Unlock()
+		atomic.StoreInt32(&stop, 1)
+	}
+	deadline := time.Now().Add(1200 * time.Millisecond)
+	var wg sync.WaitGroup
+	for w := 0; w < nW; w++ {
+		wg.Add(1)
+		go func(w int) {
+			defer wg.Done()
+			n := 0
+			for atomic.LoadInt32(&stop) == 0 && time.Now().Before(deadline) {
+				tag := fmt.Sprintf("w%d-%d", w, n)
+				var a []string
+				switch n % 6 {
+				case 0:
+					a = []string{"MSET", "ma", tag, "mb", tag, "mc", tag, "md", tag}
+				case 1, 2:
+					a = []string{"HSET", "hh"}
+					for f := 0; f < 8; f++ {
+						a = append(a, fmt.Sprintf("f%d", f), tag)
+					}
+				case 3:
+					a = []string{"SADD", "ss", "a", "b", "c", "d"}
+				case 4:
+					a = []string{"SREM", "ss", "a", "b", "c", "d"}
+				default:
+					a = []string{"HMSET", "hh", "f0", tag, "f1", tag, "f2", tag, "f3", tag, "f4", tag, "f5", tag, "f6", tag, "f7", tag}
+				}
+				if _, err := conns[w].Do(4*time.Second, bs(a...)...); err != nil {
+					fail(fmt.Sprintf("no reply to %v", a[:2]))
+					return
+				}
+				n++
+			}
+			mu.Lock()
+			total += n
+			mu.Unlock()
+		}(w)
+	}
+	uniform := func(ns []*Node) bool {
+		for _, x := range ns[1:] {
+			if x.Nil != ns[0].Nil || string(x.Str) != string(ns[0].Str) || x.Int != ns[0].Int {
+				return false
+			}
+		}
+		return true
+	}
+	for r := 0; r < nR; r++ {
+		wg.Add(1)
+		go func(r int) {
+			defer wg.Done()
+			n := 0
+			for atomic.LoadInt32(&stop) == 0 && time.Now().Before(deadline) {
+				var a []string
+				switch (r + n) % 6 {
+				case 0:
+					a = []string{"MGET", "ma", "mb", "mc", "md"}
+				case 1:
+					a = []string{"HMGET", "hh", "f0", "f1", "f2", "f3", "f4", "f5", "f6", "f7"}
+				case 2:
+					a = []string{"HVALS", "hh"}
+				case 3:
+					a = []string{"SMISMEMBER", "ss", "a", "b", "c", "d"}
+				case 4:
+					a = []string{"SCARD", "ss"}
+				default:
+					a = []string{"HGETALL", "hh"}
+				}
+				nd, err := conns[nW+r].Do(4*time.Second, bs(a...)...)
+				if err != nil {
+					fail(fmt.Sprintf("no reply to %v", a[:2]))
+					return
+				}
+				bad := false
+				switch a[0] {
+				case "MGET", "HMGET", "SMISMEMBER", "HVALS":
+					bad = len(nd.Elems) > 1 && !uniform(nd.Elems)
+				case "SCARD":
+					bad = nd.Int != 0 && nd.Int != 4
+				case "HGETALL":
+					var vals []*Node
+					for i := 1; i < len(nd.Elems); i += 2 {
+						vals = append(vals, nd.Elems[i])
+					}
+					bad = len(vals) > 1 && !uniform(vals)
+				}
+				if bad {
+					fail(fmt.Sprintf("%v answered %s while every writer replaces all parts by ONE value in a single command (MSET of 4 keys / HSET of 8 fields / SADD, SREM of 4 members): the reader saw a half-applied command", a, nd.String()))
+					return
+				}
+				n++
+			}
+			mu.Lock()
+			total += n
+			mu.Unlock()
+		}(r)
+	}
+	wg.Wait()
+	res.Histories++
+	res.Steps += total
+	res.Extra["snapshot_commands"] = toInt(res.Extra["snapshot_commands"]) + total
+	if why != "" {
+		os.MkdirAll(cfg.replayDir, 0o755)
+		path := filepath.Join(cfg.replayDir, fmt.Sprintf("C08-seed%d-snap%d.json", cfg.seed, round))
+		b, _ := json.MarshalIndent(map[string]any{"property": "C08", "kind": "snapshot", "seed": cfg.seed, "why": why,
+			"how": "3 connections write (MSET ma..md tag / HSET hh f0..f7 tag / SADD, SREM ss a b c d), 5 read (MGET, HMGET, HVALS, HGETALL, SMISMEMBER, SCARD) for 1.2 s; every reply must be uniform"}, "", " ")
+		os.WriteFile(path, b, 0o644)
+		res.Mismatches = append(res.Mismatches, &Mismatch{Index: -1, Op: "multi-part readers against single-command writers", Why: why})
+		res.Replays = append(res.Replays, path)
+	}
+	return nil
+}
+
 func c08Volume(cfg runCfg, res *Result, srv *Server, mdl *Model, g *Gen) error {
 	rounds, nMut := 4, 2500
 	if cfg.tier == "thorough" {
@@ -348,6 +487,9 @@ func c08Volume(cfg runCfg, res *Result, srv *Server, mdl *Model, g *Gen) error {
 	}
 	for r := 0; r < crounds && len(res.Mismatches) < 3; r++ {
 		if err := c08Conditional(cfg, res, srv, r); err != nil {
+			return err
+		}
+		if err := c08Snapshot(cfg, res, srv, r); err != nil {
 			return err
 		}
 	}
